@@ -59,6 +59,9 @@ package swarm
 //@ prop C10
 //@ ensures forall j int :: 0 <= j && j < len(goodAddrs) ==> s.gater == nil || s.gater.InterceptAddrDial(p, goodAddrs[j])
 //@ ensures forall j int :: 0 <= j && j < len(goodAddrs) ==> s.TransportForDialing(goodAddrs[j]) != nil
+//@ assert before filterLowPriorityAddresses#0: forall j int :: 0 <= j && j < len(addrs) ==> s.TransportForDialing(addrs[j]) != nil
+//@ assert before FilterAddrs#1: forall j int :: 0 <= j && j < len(addrs) ==> s.TransportForDialing(addrs[j]) != nil
+//@ assert before FilterAddrs#2: forall j int :: 0 <= j && j < len(addrs) ==> s.TransportForDialing(addrs[j]) != nil
 //@ noframe
 
 //@ func (s *Swarm) addrsForDial
